@@ -309,7 +309,9 @@ def main():
     seed = int(os.environ.get("VERIF_SEED", "1"))
     mod = importlib.import_module("props." + pid)
     if tier == "replay":
-        return mod.replay(sys.argv[3])
+        if hasattr(mod, "replay"):
+            return mod.replay(sys.argv[3])
+        return generic_replay(pid, sys.argv[3])
     t0 = time.time()
     ctx = Ctx(pid, tier, seed)
     try:
@@ -321,6 +323,42 @@ def main():
         rc = 2
     print(f"[{pid}] {tier} done in {time.time() - t0:.1f}s rc={rc}")
     return rc
+
+
+def generic_replay(pid, path):
+    """re-run the recorded case on the extracted model and on the Rust harness (default/debug build)"""
+    rp = json.load(open(path))
+    case = rp.get("case")
+    print("property:", pid)
+    print("broken:", rp.get("broken"))
+    if not case:
+        print("no concrete failing input was recorded (no-failing-input-found): see 'broken' above")
+        return 1
+    regen()
+    drv, out = build_model()
+    line = "r0 " + case
+    if drv:
+        print("model:", run_model(drv, [line]).get("r0"))
+    else:
+        print("model: not buildable:", out[-400:])
+    build = rp.get("build", "default/debug").split("/")
+    if case.split()[0] in ("CH", "kcip", "kxof", "khm", "kxm") and "rs" not in case.split()[:3]:
+        import charness
+        b, log = charness.build("asm")
+        print("implementation (c asm):", charness.run(b, [line]).get("r0") if b else log[-400:])
+        return 0
+    crate = "b3sum" if case.split()[0] in ("parse", "fts", "unescape", "inv", "half", "print", "rt", "b3hash", "b3check") else "rs"
+    flavour = build[0] if build[0] in ("default", "prefer_intrinsics", "pure") else "default"
+    b, out = cargo_build(flavour, build[1] if len(build) > 1 and build[1] in ("debug", "release") else "debug", crate=crate)
+    if b and crate == "rs":
+        print("implementation:", run_lines(b, [line]).get("r0"))
+    elif b:
+        print("implementation binary:", b, "(b3sum cases are run by tools/props/%s.py; recorded result: %s)" % (pid, rp.get("impl")))
+    else:
+        print("implementation: not buildable:", out[-400:])
+    print("recorded model line:", rp.get("model"))
+    print("recorded implementation line:", rp.get("impl"))
+    return 0
 
 
 class Ctx:
